@@ -100,6 +100,69 @@ impl Clones {
     }
 }
 
+/// The rows an answer lists, when it lists any (FIND rows, SEARCH hits,
+/// HISTORY/CHANGES entries, Capsule records).
+fn rows_of(main: &serde_json::Value) -> Option<Vec<String>> {
+    let r = main.get("result")?;
+    if let Some(a) = r.as_array() {
+        return Some(a.iter().map(|v| v.to_string()).collect());
+    }
+    if let Some(a) = r.get("hits").and_then(|h| h.as_array()) {
+        return Some(a.iter().map(|v| v["id"].to_string()).collect());
+    }
+    if r.get("caveat").is_some() && r.get("search_context").is_some() {
+        return Some(vec![]); // a SEARCH answer with no hits (empty members are dropped)
+    }
+    if let Some(records) = r.get("payload").and_then(|p| p.get("records")).and_then(|x| x.as_object()) {
+        return Some(records.values().flat_map(|v| v.as_array().cloned().unwrap_or_default()).map(|v| v.to_string()).collect());
+    }
+    None
+}
+
+/// How two canonical answers differ — the last component of a signature, so
+/// that a different kind of difference in the same clause family is a
+/// different finding.
+fn shape(actual: &serde_json::Value, expected: &serde_json::Value) -> &'static str {
+    let err = |v: &serde_json::Value| v.get("error").is_some();
+    match (err(actual), err(expected)) {
+        (true, true) => return "error-code",
+        (false, true) => return "answer-vs-error",
+        (true, false) => return "error-vs-answer",
+        _ => {}
+    }
+    // PREVIEW reports the inner refusal as a member
+    if let (Some(a), Some(b)) = (actual["result"]["error"]["code"].as_str(), expected["result"]["error"]["code"].as_str()) {
+        if a != b {
+            return "error-code";
+        }
+    }
+    match (rows_of(actual), rows_of(expected)) {
+        (Some(a), Some(b)) => {
+            let (mut sa, mut sb) = (a.clone(), b.clone());
+            sa.sort();
+            sb.sort();
+            if sa == sb {
+                if a != b {
+                    "reordered"
+                } else if actual.get("next_cursor") != expected.get("next_cursor") {
+                    "cursor"
+                } else {
+                    "row-content"
+                }
+            } else {
+                let extra = sa.iter().any(|r| !sb.contains(r));
+                let missing = sb.iter().any(|r| !sa.contains(r));
+                match (extra, missing) {
+                    (true, true) => "other-rows",
+                    (true, false) => "extra-rows",
+                    _ => "missing-rows",
+                }
+            }
+        }
+        _ => "value",
+    }
+}
+
 #[derive(Clone, Debug)]
 struct Failure {
     /// "authz" | "leak" | "differs" | "ungated" | "mask"
@@ -329,12 +392,13 @@ async fn eval_config(
                     (false, true) => "mask",
                     (true, true) => "mixed",
                 };
+                let other = detail.get("same_command_naming_a_never_written_id").cloned().unwrap_or_else(|| expected[index].main.clone());
                 let family = if item.oracle == Oracle::Taint {
-                    item.family.to_string()
+                    format!("{}|content", item.family)
                 } else if kind == "score" {
-                    format!("{}_SCORE|{cause}", item.family)
+                    format!("{}|{cause}|scores", item.family)
                 } else {
-                    format!("{}|{cause}", item.family)
+                    format!("{}|{cause}|{}", item.family, shape(&actual.main, &other))
                 };
                 let kind = if kind == "score" { "differs" } else { kind };
                 detail["command"] = json!(command);
@@ -563,17 +627,22 @@ fn main() {
     for f in &totals.failures {
         groups.entry((f.kind.to_string(), f.family.clone())).or_default().push(f);
     }
-    let pure: BTreeSet<(String, String)> = groups
+    // family = FAMILY|cause|shape; "mixed" (hidden elements and a mask at once)
+    // is reported only when the same FAMILY|shape fails for neither alone
+    let parts = |fam: &str| -> (String, String, String) {
+        let v: Vec<&str> = fam.split('|').collect();
+        if v.len() == 3 { (v[0].into(), v[1].into(), v[2].into()) } else { (fam.into(), String::new(), String::new()) }
+    };
+    let pure: BTreeSet<(String, String, String)> = groups
         .keys()
-        .filter(|(_, fam)| !fam.ends_with("|mixed"))
-        .map(|(k, fam)| (k.clone(), fam.rsplit_once('|').map(|x| x.0.to_string()).unwrap_or(fam.clone())))
+        .map(|(k, fam)| (k.clone(), parts(fam)))
+        .filter(|(_, (_, cause, _))| cause != "mixed")
+        .map(|(k, (f, _, s))| (k, f, s))
         .collect();
     for ((kind, family), mut fails) in groups {
-        if let Some((base, "mixed")) = family.rsplit_once('|') {
-            // hidden elements and a mask at once: reported only when neither alone fails
-            if pure.contains(&(kind.clone(), base.to_string())) {
-                continue;
-            }
+        let (f0, cause, s0) = parts(&family);
+        if cause == "mixed" && pure.contains(&(kind.clone(), f0, s0)) {
+            continue;
         }
         fails.sort_by_key(|f| (f.config.len(), f.config.clone(), f.who, f.item.clone()));
         let f = fails[0];
